@@ -28,7 +28,7 @@ ASSUMPTIONS = ['numerically solved dispersion/trace orders are compared to 1e-6 
 PLAN = {'quick': {'gen': 8}, 'thorough': {'gen': 16, 'tests': 1}}
 REQUIRED_BUCKETS = ['tilt:subpixel', 'tilt:pixels', 'tilt:beyond-output', 'du:aniso', 'du:iso', 'os>1', 'segmented',
                     'rep:ramp', 'rep:plane', 'rep:wavefront', 'rep:fit', 'multi-tilt', 'scan', 'disp:propagated', 'sequence', 'disp:order1', 'disp:order>1',
-                    'refit-after-update', 'refit-segmented', 'fit:flat-segments', 'fit:fill-outside-mask', 'opd:not-c-contiguous', 'fit:array-dtypes']
+                    'refit-after-update', 'refit-segmented', 'fit:flat-segments', 'fit:fill-outside-mask', 'opd:not-c-contiguous', 'fit:array-dtypes', 'scalars:float32']
 REQUIRED_ANCHORS = ['anchor:Tilt.shift', 'anchor:Field.shift', 'anchor:fit_tilt', 'anchor:ptt_vector',
                     'anchor:DispersiveTilt.shift', 'probe:propagate_dft']
 REQUIRED_ORACLES = ['rep=model', 'fit=lstsq', 'fit:opd+tilt', 'shift:additive', 'shift:order', 'shift:signs',
@@ -147,6 +147,9 @@ def workload(ctx, lentil):
     # ---- (i) representations ------------------------------------------------
     for i in range(n):
         wl, z, dx, du, os_ = gen.optics(rng)
+        narrow32 = i % 7 == 3
+        if narrow32:
+            z = float(np.float32(z))      # a focal length (and, below, angles) that are exact single precision numbers
         dxs = np.broadcast_to(np.asarray(dx, float), (2,))
         dus = np.broadcast_to(np.asarray(du, float), (2,))
         shape = gen.rshape(rng, 4, hi)
@@ -178,6 +181,8 @@ def workload(ctx, lentil):
             sp[int(rng.integers(0, 2))] = 0.0
         tx = sp[0] * dus[0] / (z * os_)           # s_row = +z*tx*os/du_row
         ty = -sp[1] * dus[1] / (z * os_)          # s_col = -z*ty*os/du_col
+        if narrow32:
+            tx, ty = float(np.float32(tx)), float(np.float32(ty))
         s = (float(z * tx * os_ / dus[0]), float(-z * ty * os_ / dus[1]))
         ar = dxs[0] * dus[0] / (wl * z * os_)
         ac = dxs[1] * dus[1] / (wl * z * os_)
@@ -191,10 +196,15 @@ def workload(ctx, lentil):
         try:
             reps['ramp'] = lentil.Wavefront(wl) * lentil.Pupil(amplitude=amp, opd=opd + ramp(shape, dxs, tx, ty),
                                                                pixelscale=dx, focal_length=z)
+            z_a, tx_a, ty_a = z, tx, ty
+            if narrow32:
+                # ... handed over as NumPy single precision scalars (read from a float32 table): the same numbers
+                z_a, tx_a, ty_a = np.float32(z), np.float32(tx), np.float32(ty)
+                ctx.bucket('scalars:float32')
             reps['plane'] = lentil.Wavefront(wl) * lentil.Pupil(amplitude=amp, opd=opd, pixelscale=dx,
-                                                                focal_length=z) * lentil.Tilt(x=tx, y=ty)
-            reps['wavefront'] = lentil.Wavefront(wl, tilt=[tx, ty]) * lentil.Pupil(amplitude=amp, opd=opd,
-                                                                                   pixelscale=dx, focal_length=z)
+                                                                focal_length=z_a) * lentil.Tilt(x=tx_a, y=ty_a)
+            reps['wavefront'] = lentil.Wavefront(wl, tilt=[tx_a, ty_a] if i % 2 else np.array([tx_a, ty_a])) * lentil.Pupil(amplitude=amp, opd=opd,
+                                                                                   pixelscale=dx, focal_length=z_a)
             reps['fit'] = lentil.Wavefront(wl) * lentil.Pupil(amplitude=amp, opd=_lay(ctx, rng, opd + ramp(shape, dxs, tx, ty)),
                                                               pixelscale=dx, focal_length=z).fit_tilt()
         except Exception as e:
